@@ -34,7 +34,9 @@ func (s *stack) size() int {
 }
 
 // depth-first search
-func (s *stack) dfs(current *Node) {
+// It reports whether current was attached to (or merged into) the tree;
+// false means no open node is exactly one level above current.
+func (s *stack) dfs(current *Node) bool {
 	size := s.size()
 	for range size {
 		parent := s.pop()
@@ -45,12 +47,13 @@ func (s *stack) dfs(current *Node) {
 		// for same name on the same hierarchy
 		if child := parent.findChildByText(current.name); child != nil {
 			s.push(parent).push(child)
-			return
+			return true
 		}
 
 		parent.addChild(current)
 		current.setParent(parent)
 		s.push(parent).push(current)
-		return
+		return true
 	}
+	return false
 }
